@@ -28,8 +28,8 @@ let observe (s : shard) (nuids : int) (nctx : int) : string =
   Buffer.add_string b (Printf.sprintf "dirs=%s;" (ns (Stdlib.List.map (fun d -> d.sid) s.dirs)));
   Buffer.add_string b (Printf.sprintf "wal=%s;" (Stdlib.String.concat ","
      (Stdlib.List.map (fun (i, es) -> string_of_n i ^ ":" ^ string_of_int (Stdlib.List.length es)) s.walfiles)));
-  Buffer.add_string b (Printf.sprintf "live=%s;inf=%s;alloc0=%s;wcur=%s;wcnt=%s;unl=%b;jobs=%d" (ns s.live) (ns s.inflight)
-     (string_of_n s.alloc0) (string_of_n s.wcur) (string_of_n s.wcnt) s.wunlinked (Stdlib.List.length s.jobs));
+  Buffer.add_string b (Printf.sprintf "live=%s;inf=%s;alloc0=%s;wcur=%s;wcnt=%s;unl=%b;jobs=%d;wlost=%s" (ns s.live) (ns s.inflight)
+     (string_of_n s.alloc0) (string_of_n s.wcur) (string_of_n s.wcnt) s.wunlinked (Stdlib.List.length s.jobs) (ks s.wlost));
   Buffer.contents b
 
 let run (t : string list) : string =
